@@ -339,6 +339,10 @@ def iso_theory(h: H):
 
     def isoformat(I, obj, a, k):
         s = I.ctx.fresh_str("iso")
+        ts = k.get("timespec", a[1] if len(a) > 1 else "auto")
+        if ts not in ("auto", "microseconds") or (a and a[0] not in ("T", " ")):
+            # a coarser timespec drops sub-second digits: the string no longer determines the value (no ISO-RT)
+            return SStr(s)
         store[s.sexpr()] = obj
         I.ctx.use("T-py:ISO-RT X.fromisoformat(x.isoformat()) == x for datetime/date/time")
         return SStr(s)
